@@ -79,6 +79,17 @@ class _Handler(http.server.BaseHTTPRequestHandler):
                 fault = None
             else:
                 f["hits"] = f.get("hits", 0) + 1
+        if fault == "reset":
+            # the connection is closed without any reply (a restarting server, an idle
+            # keep-alive connection cut by a proxy)
+            self.server.log.append((self.command, self.path, self.headers.get("Range"),
+                                    "reset"))
+            self.close_connection = True
+            try:
+                self.connection.shutdown(socket.SHUT_RDWR)
+            except OSError:
+                pass
+            return None
         if fault in ("500", "503", "502"):
             return self._send(int(fault), b"<html>server error</html>")
         if fault == "404":
